@@ -138,6 +138,13 @@ def accessor_products():
             arg = 'v' if kw == 'set' else ''
             yield ('accessor', kw, sn, name), 'x = {%s%s%s(%s) {}, k: 1};' % (kw, sep, name, arg)
             yield ('accessor_plain', kw, sn, name), 'x = %s%s%s' % (kw, sep, 'in y' if name == 'a' else '+ 1')
+    for kw in ('get', 'set', 'o.get', 'x = set'):
+        for (sn, sep) in SEPARATORS:
+            if sn in ('none', 'blank', 'block'):
+                continue        # a line terminator is needed for the statement to end
+            for head in ('if (a)', 'while (a)', 'for (;;)', 'with (a)', 'for (k in o)'):
+                yield ('accessor_word_then_header', kw, sn, head), '%s%s%s /re/.test(b)' % (kw, sep, head)
+                yield ('accessor_word_then_header_div', kw, sn, head), '%s%s%s x = y / 2 / z' % (kw, sep, head)
     for w in ('get1', 'set2', 'getter', 'get_', 'set$', 'gets', 'get\\u0061'):
         yield ('accessor_like_name', w), 'x = {%s: %s}; %s++;' % (w, w, w)
 
